@@ -202,11 +202,21 @@ public:
         J.attributeEnd();
     }
 
+    void ptypes(const FunctionDecl* fd) {
+        if (!fd || fd->getNumParams() == 0) return;
+        J.attributeBegin("pt");
+        J.arrayBegin();
+        for (const ParmVarDecl* p : fd->parameters()) J.value(ty(p->getType()));
+        J.arrayEnd();
+        J.attributeEnd();
+    }
+
     void calleeAttrs(const FunctionDecl* fd) {
         if (!fd) return;
         std::string q = qname(fd);
         J.attribute("fn", q);
         targs(fd);
+        ptypes(fd);
         callees.insert(q);
         if (auto* md = dyn_cast<CXXMethodDecl>(fd)) {
             J.attribute("m", md->getNameAsString());
@@ -393,6 +403,7 @@ public:
                 if (cd->isCopyOrMoveConstructor()) J.attribute("copy", true);
                 callees.insert(qname(cd));
                 J.attribute("fn", qname(cd));
+                ptypes(cd);
             }
             if (x->isListInitialization()) J.attribute("list", true);
             childrenR("a", x->arguments());
